@@ -429,6 +429,10 @@ class HyASTCompiler:
         for expr in exprs_iter:
 
             if (dict_display or with_kwargs) and is_unpack("mapping", expr):
+                if len(expr) != 2:
+                    raise self._syntax_error(
+                        expr, "`unpack-mapping` takes exactly one argument"
+                    )
                 ret += self.compile(expr[1])
                 if dict_display:
                     compiled_exprs.append(None)
